@@ -298,8 +298,21 @@ def check_best_response(case):
     index = cons.index
     if len(index) == 0:
         raise Skip("no event occurs (empty index)")
-    obj = MC.make_error_rate(case["costs"])
-    obj.load_data(X, y, **kw)
+    if case["costs"] is None and case.get("tie", 0) == 0:
+        # the moment's own default objective; a second problem (another moment of the same kind with its default objective,
+        # loaded with the rotated rows) is set up afterwards and stays alive: objectives of different problems share nothing
+        obj = cons.default_objective()
+        obj.load_data(X, y, **kw)
+        other = MC.make_parity_moment(case)
+        X2, y2, kw2 = MC.build_data(MC.rotated(case, 1 + len(case["y"]) // 2))
+        other.load_data(X2, y2, **kw2)
+        obj2 = other.default_objective()
+        need(obj2 is not obj, "two moments hand out the same default objective object")
+        obj2.load_data(X2, y2, **kw2)
+        obj2.gamma(MC.predictor(np.zeros(n)))
+    else:
+        obj = MC.make_error_rate(case["costs"])
+        obj.load_data(X, y, **kw)
     lam = _lam_series(index, case["lam"])
     lv = lam.to_numpy()
 
